@@ -18,12 +18,12 @@ GUARD = "LIBCSD_VERIF"
 COMMON = ["-std=c++17", "-O1", "-g", "-fno-omit-frame-pointer", "-D" + GUARD, "-w",
           "-I" + REPO, "-I" + REPO + "/libcds/includes"]
 VARIANTS = {
-    "asan": ["-fsanitize=address", "-fsanitize=bounds,return,unreachable", "-fno-sanitize-recover=all"],
+    "asan": ["-fsanitize=address", "-fsanitize=array-bounds,return,unreachable", "-fno-sanitize-recover=all"],
     "tsan": ["-fsanitize=thread"],
     "plain": [],
 }
 LINK = {
-    "asan": ["-fsanitize=address", "-fsanitize=bounds,return,unreachable"],
+    "asan": ["-fsanitize=address", "-fsanitize=array-bounds,return,unreachable"],
     "tsan": ["-fsanitize=thread"],
     "plain": [],
 }
